@@ -5,6 +5,7 @@
   alias anything); on the Go side it is observed (overwrite probe against a pristine twin).
 -/
 import Rtp.Proofs.AV1Depack
+import Rtp.Proofs.AV1DepackIdx
 import Rtp.Proofs.AV1Packet
 namespace Rtp.Props.C09.AV1
 open Rtp Rtp.Model Rtp.Model.AV1
@@ -18,9 +19,15 @@ theorem c09_av1 (d : DSt) (ps : List (Option Bytes)) :
   | cons p ps ih =>
     have ih' := ih (depUnmarshal d (p.getD [])).2
     simp only [Pred.C09.histOk] at ih' ⊢
-    simp only [depObsOf, List.all_cons, ih', Bool.and_true, Pred.C09.callOk]
+    simp only [depObsOf, depUnmarshalX_eq, List.all_cons, ih', Bool.and_true, Pred.C09.callOk]
     have := depUnmarshal_ne_panic d (p.getD [])
     cases hr : (depUnmarshal d (p.getD [])).1 <;> simp_all [Res.coarse, Res.isPanic]
+
+/-- the offset-based model with CHECKED slice expressions (`payload[a:b]` fails unless a ≤ b ≤ len)
+    never fails a check, on any receiver and any payload, and computes what the list-consuming
+    model computes: every slice expression of Unmarshal is in range -/
+theorem c09_av1_slices_in_range (d : DSt) (p : Bytes) :
+    depUnmarshalC d p = some (depUnmarshal d p) := depUnmarshalC_eq d p
 
 /-- spelled out: Unmarshal on any receiver and any payload returns a value or an error -/
 theorem c09_av1_nopanic (d : DSt) (p : Bytes) : (depUnmarshal d p).1 ≠ .panic :=
